@@ -127,6 +127,8 @@ def src(s):
     if k == "array":
         return "Array(%d, %s)" % (s[1], src(s[2]))
     if k == "arrayctx":
+        if s[2] is None:
+            return "Array(this.%s, %s)" % (s[1], src(s[3]))
         return "Array(this.%s & %d, %s)" % (s[1], s[2], src(s[3]))
     if k == "greedyrange":
         return "GreedyRange(%s)" % src(s[1])
@@ -289,14 +291,29 @@ def domain(ctx, s, name, tier="quick", wide=False, env=None):
     if k == "bytesctx":
         if s[2] is None:
             if s[1] in env:
-                n = ctx.concretize(env[s[1]])
+                n = env[s[1]]
+                if n < 0:
+                    n = 0
+                elif n > 3:
+                    n = 3
+                else:
+                    n = ctx.concretize(n)
             else:
                 n = ctx.choice(name + ".len", [0, 1, 2])     # length comes from a rebuilt field
         else:
             n = ctx.concretize(env[s[1]] % (s[2] + 1))
         return ctx.bytes(name, n)
     if k == "arrayctx":
-        n = ctx.concretize(env[s[1]] % (s[2] + 1))
+        if s[2] is None:
+            n = env[s[1]]
+            if n < 0:
+                n = 0
+            elif n > 3:
+                n = ctx.choice(name + ".len", [0, 3])        # wrong-length lists for counts beyond the bound
+            else:
+                n = ctx.concretize(n)
+        else:
+            n = ctx.concretize(env[s[1]] % (s[2] + 1))
         return [domain(ctx, s[3], "%s[%d]" % (name, i), tier, wide, env) for i in range(n)]
     if k == "if":
         if env[s[1]]:
